@@ -4,8 +4,6 @@ use std::fmt::Write;
 
 #[derive(Clone, Debug)]
 pub enum Json {
-    Null,
-    Bool(bool),
     Int(i128),
     Float(f64),
     Str(String),
@@ -30,9 +28,6 @@ impl Json {
     pub fn str(s: impl Into<String>) -> Json {
         Json::Str(s.into())
     }
-    pub fn int(v: impl Into<i128>) -> Json {
-        Json::Int(v.into())
-    }
     pub fn arr_str(xs: &[String]) -> Json {
         Json::Arr(xs.iter().map(|x| Json::Str(x.clone())).collect())
     }
@@ -46,8 +41,6 @@ impl Json {
 
     fn write(&self, out: &mut String, indent: usize) {
         match self {
-            Json::Null => out.push_str("null"),
-            Json::Bool(b) => out.push_str(if *b { "true" } else { "false" }),
             Json::Int(i) => {
                 let _ = write!(out, "{}", i);
             }
